@@ -459,4 +459,24 @@ def run(F, R, tier):
         n8 += L.serde_skip_inverse(r8, F, ty)
     for ty in ("identity_jose::jws::encoding::utils::JwsSignature", "identity_jose::jws::encoding::utils::Flatten", "identity_jose::jws::encoding::utils::General"):
         n8 += L.serde_skip_inverse(r8, F, ty)
-    r8.floor(15)
+    # … and the reader's containers can *hold* every payload string the writer emits: an unencoded payload (b64 = false) is written as a JSON
+    # string, escapes included (`{"k":1}` → "{\"k\":1}"), and serde cannot hand an escaped string out as a borrowed &str — the member must be
+    # Cow<'a, str> (borrowed when possible) or String.  (D22: with `payload: Option<&'a str>` the library's own flattened / general output
+    # for any payload containing a quote, backslash or control character was rejected by its own decoder.)
+    DECM = "identity_jose::jws::decoder"
+    for ty in (DECM + "::Flatten", DECM + "::General"):
+        fs = F.adt_fields(ty)
+        if not r8.anchor(fs, ty):
+            continue
+        pf = [f for f in fs if f["name"] == "payload"]
+        if r8.require(len(pf) == 1, (ty, "payload", "ANCHOR"), "%s has no payload member" % L.short(ty)):
+            t_ = pf[0]["ty"].replace(" ", "")
+            holds = re.search(r"Cow<'\w+,str>", t_) is not None or "alloc::string::String" in t_ or re.search(r"\bString\b", t_) is not None
+            r8.site("%s.payload : %s" % (L.short(ty), pf[0]["ty"]))
+            r8.require(holds, (ty, "payload", "escaped-string"), "%s.payload is %s: a JSON string with escapes cannot be deserialised into a borrowed &str, so a JWS this library serialises with an "
+                       "unencoded payload containing `\"`, `\\` or a control character is rejected by its own decoder" % (L.short(ty), pf[0]["ty"]))
+            ai_ = F.ast_item(ty)
+            if ai_ is not None and holds and "Cow" in t_:
+                pa = next((f_ for f_ in ai_.get("fields", []) if f_["name"] == "payload"), None)
+                r8.require(pa is not None and any("borrow" in x for x in pa["attrs"]), (ty, "payload", "serde-borrow"), "%s.payload is a Cow without #[serde(borrow)]: every payload is copied (and the lifetime is unused)" % L.short(ty))
+    r8.floor(17)
